@@ -72,22 +72,42 @@ theorem runBody_step (f m : Nat) (s : State) (r o i t : Nat) (tok : Obj)
   obtain ⟨s1, r1⟩ := p
   cases r1 <;> simp
 
-/-- … and so is the last one (the tail call keeps `execProc = false`; repaired defect) -/
-theorem tail_element (f m : Nat) (s : State) (r o l : Nat) (hl : l ≠ 0) (hb : ¬ (m > 0 ∧ s.numOps + 1 > m)) :
-    execTail (f + 1) m s (.proc r o l) true =
-      (let p := runBody f m { s with numOps := s.numOps + 1 } r o 0 (l - 1)
-       if p.2 = .ok then
-         match (p.1.vm.getObjs r)[o + (l - 1)]? with
-         | some last => execTail f m p.1 last false
-         | none => (p.1, .err (.panic "procedure view outside its store"))
-       else p) := by
+/-- … and so is the last one (the tail call keeps `execProc = false`; repaired defect).  A procedure
+that was called by name (`counted = false`) occupies one level of the execution stack while it runs. -/
+theorem tail_element (f m : Nat) (s : State) (r o l : Nat) (c : Bool) (hl : l ≠ 0)
+    (hb : ¬ (m > 0 ∧ s.numOps + 1 > m)) (hd : c = true ∨ s.execDepth < execDepthLimit) :
+    execTail (f + 1) m s (.proc r o l) true c =
+      leaveLevel c
+        (let p := runBody f m (enterLevel c { s with numOps := s.numOps + 1 }) r o 0 (l - 1)
+         if p.2 = .ok then
+           match (p.1.vm.getObjs r)[o + (l - 1)]? with
+           | some last => execTail f m p.1 last false true
+           | none => (p.1, .err (.panic "procedure view outside its store"))
+         else p) := by
   conv => lhs; unfold execTail
   simp only [hb, if_false, if_true]
   have : (l == 0) = false := by simp [hl]
   simp only [this, Bool.false_eq_true, if_false]
-  generalize runBody f m { s with numOps := s.numOps + 1 } r o 0 (l - 1) = p
+  have hlev : (!c && decide (s.execDepth ≥ execDepthLimit)) = false := by
+    rcases hd with rfl | hd
+    · rfl
+    · have : ¬ s.execDepth ≥ execDepthLimit := by omega
+      simp [this]
+  simp only [hlev, Bool.false_eq_true, if_false]
+  congr 1
+  generalize runBody f m (enterLevel c { s with numOps := s.numOps + 1 }) r o 0 (l - 1) = p
   obtain ⟨s1, r1⟩ := p
   cases r1 <;> simp <;> rfl
+
+/-- a procedure called by name at execution depth 100 is refused (repaired defect: such calls used to
+recurse on the Go stack without any limit) -/
+theorem named_call_depth_limit (f m : Nat) (s : State) (r o l : Nat) (hl : l ≠ 0)
+    (hb : ¬ (m > 0 ∧ s.numOps + 1 > m)) (hd : s.execDepth ≥ execDepthLimit) :
+    execTail (f + 1) m s (.proc r o l) true false =
+      ({ s with numOps := s.numOps + 1 }, .err (.ps "execstackoverflow")) := by
+  unfold execTail
+  have : (l == 0) = false := by simp [hl]
+  simp [hb, this, hd, psErrS]
 
 /-- executable names are looked up through the dictionary stack from the top: the value in
 the topmost dictionary that knows the name wins -/
@@ -101,15 +121,15 @@ theorem lookup_topdown (v : VM) (n : Name) (d : Nat) (ds : List Nat) (h : v.dict
   cases hd : v.dictGet d n <;> simp [VM.dictGet, VM.getDict]
 
 /-- an executable name is replaced by its value, which is then executed -/
-theorem exec_name (f m : Nat) (s : State) (n : Name) (x : Obj) (b : Bool)
+theorem exec_name (f m : Nat) (s : State) (n : Name) (x : Obj) (b c : Bool)
     (hb : ¬ (m > 0 ∧ s.numOps + 1 > m)) (hl : lookupName s.vm n = some x) :
-    execTail (f + 1) m s (.op n) b = execTail f m { s with numOps := s.numOps + 1 } x true := by
+    execTail (f + 1) m s (.op n) b c = execTail f m { s with numOps := s.numOps + 1 } x true c := by
   conv => lhs; unfold execTail
   simp [hb, hl]
 
-theorem exec_name_undefined (f m : Nat) (s : State) (n : Name) (b : Bool)
+theorem exec_name_undefined (f m : Nat) (s : State) (n : Name) (b c : Bool)
     (hb : ¬ (m > 0 ∧ s.numOps + 1 > m)) (hl : lookupName s.vm n = none) :
-    execTail (f + 1) m s (.op n) b = ({ s with numOps := s.numOps + 1 }, .err (.ps "undefined")) := by
+    execTail (f + 1) m s (.op n) b c = ({ s with numOps := s.numOps + 1 }, .err (.ps "undefined")) := by
   unfold execTail
   simp [hb, hl, psErrS]
 
